@@ -130,6 +130,30 @@ def program_family(res, tier, rnd):
     for m, what in bad[:1]:
         res.violation("C14:program-print", what, {"scenario_meta": m})
     res.coverage["program_family"] = len(scs)
+    # a line printed on the main screen, then the alt screen entered before the next frame, then the program ends while
+    # still in the alt screen (finding F20: the line is never written - it waits in the renderer's queue, which is only
+    # written out while the main screen is active, and shutdown leaves the alt screen after the last flush)
+    scs3, metas3 = [], []
+    for fps, then in ((1, "quit"), (1, "update-quit"), (2, "quit")):
+        t = "line printed before the alt screen (fps %d, %s)" % (fps, then)
+        script = [P.W("started"), P.W("idle"), P.DO("send", msg=P.B("print", s=t)), P.DO("send", msg=P.B("enteralt"))]
+        if then == "update-quit":
+            script += [P.DO("send", msg=P.U(5))]
+        script += [P.DO("quit"), P.W("returned")]
+        scs3.append(P.scenario(len(scs3), script, opts={"fps": fps}, parallel_ok=True, watchdog_ms=5000))
+        metas3.append({"text": t, "fps": fps, "then": then})
+    results3, _ = P.run_scenarios("C14_prog3", scs3, timeout=600)
+    lost = []
+    for m, r in zip(metas3, results3):
+        if P.machinery_problem(r) or not r["run_returned"]:
+            raise C.Fail("C14 alt-screen scenario did not complete: %s" % P.summarize(r))
+        n = bytes(r["output"]).count(m["text"].encode())
+        m["times_in_output"] = n
+        if n != 1:
+            lost.append((m, "Println(%r) while the main screen was active, EnterAltScreen before the next frame, then the program ended: the line appears %d times in the output" % (m["text"], n)))
+    res.coverage["print_then_altscreen_then_exit"] = metas3
+    for m, what in lost[:1]:
+        res.violation("C14:print-then-altscreen-then-exit", what, {"scenario_meta": m})
 
 
 def wide_family(res, tier, rnd):
